@@ -41,6 +41,7 @@ class World:
         self.refusals = []
         self.bad_keys = [b"\x00" * 64, b"\x07" * 64, b"\xff" * 64]     # 64 bytes that are not a curve point
         self.bad_key_prob = 0.0
+        self.odd_reward_prob = 0.0         # share of generated blocks whose (valid) reward is split / has zero-valued outputs
         self.counters = {"blocks_real_route": 0, "blocks_ref_route": 0, "tx_real_signed": 0, "tx_ref_signed": 0,
                          "nonce_tries": 0}
 
@@ -124,14 +125,18 @@ class World:
     def coinbase(self, height, value, key, data=b""):
         return ref.RTx([(ref.ZERO32, 0, (ref.SIG_CB, height, data))], [(value, key)])
 
-    def draft(self, parent_id, rtxs, ts, miner_pk, data=b"", reward=None):
-        """reference-route block draft (not yet mined): reward = subsidy + fees unless given"""
+    def draft(self, parent_id, rtxs, ts, miner_pk, data=b"", reward=None, reward_outputs=None):
+        """reference-route block draft (not yet mined): reward = subsidy + fees unless given; reward_outputs: the reward
+        transaction's complete output list [(value, key), ...] instead of the single output"""
         parent = self.chain.blocks[parent_id]
         h = parent.height + 1
         led = self.ledger(parent_id)
         if reward is None:
             reward = ref.subsidy(h) + sum(ref.tx_fee(t, led) for t in rtxs)
-        txs = [self.coinbase(h, reward, miner_pk, data)] + list(rtxs)
+        cb = self.coinbase(h, reward, miner_pk, data)
+        if reward_outputs is not None:
+            cb = ref.RTx(cb.inputs, list(reward_outputs))
+        txs = [cb] + list(rtxs)
         return ref.RBlock(h, parent_id, ref.merkle_root([t.id() for t in txs]), ts,
                           ref.expected_target(self.chain, parent, ts), 0, b"", b"", b"", txs)
 
@@ -152,11 +157,35 @@ class World:
                 return blk
         raise RuntimeError("no nonce found")
 
-    def assemble(self, parent_id, rtxs, ts, miner_pk, route=None, data=b""):
+    def odd_reward_outputs(self, parent_id, rtxs, miner_pk, rng):
+        """a VALID but unusual reward: split over several outputs, outputs of value 0 (reward outputs are exempt from the
+        positive-amount rule), less than the allowed total"""
+        parent = self.chain.blocks[parent_id]
+        led = self.ledger(parent_id)
+        total = ref.subsidy(parent.height + 1) + sum(ref.tx_fee(t, led) for t in rtxs)
+        k2 = rng.choice(self.keys)[1]
+        kind = rng.choice(["zero-extra", "zero-first", "split", "zero-same-key", "under-claim", "two-zeros"])
+        self.counters["odd_rewards"] = self.counters.get("odd_rewards", 0) + 1
+        if kind == "zero-extra":
+            return [(total, miner_pk), (0, k2)]
+        if kind == "zero-first":
+            return [(0, k2), (total, miner_pk)]
+        if kind == "zero-same-key":
+            return [(total, miner_pk), (0, miner_pk)]
+        if kind == "two-zeros":
+            return [(0, miner_pk), (total, k2), (0, k2)]
+        if kind == "split" and total > 1:
+            a = rng.randrange(1, total)
+            return [(a, miner_pk), (total - a, k2)]
+        return [(max(total - rng.choice([1, 1000]), 0), miner_pk)]
+
+    def assemble(self, parent_id, rtxs, ts, miner_pk, route=None, data=b"", reward_outputs=None):
         """(rblock, real block).  route 'real': the repo's construct_block_for_mining on a state whose head is the
         parent, nonce found with the reference evidence; route 'ref': built entirely from the reference model"""
         route = route or self.rng.choice(["real", "ref"])
-        rb = self.mine(self.draft(parent_id, rtxs, ts, miner_pk, data))
+        if reward_outputs is not None:
+            route = "ref"            # (the repository's own assembly always builds the single-output reward)
+        rb = self.mine(self.draft(parent_id, rtxs, ts, miner_pk, data, reward_outputs=reward_outputs))
         if route == "ref":
             self.counters["blocks_ref_route"] += 1
             return rb, bridge.rblock_to_real(rb)
@@ -229,8 +258,11 @@ class World:
                     if rng.random() < 0.5:
                         self.pending.append(t)
                         self.pending = self.pending[-6:]
-            rb, real = self.assemble(pid, rtxs, ts, rng.choice(self.keys)[1],
-                                     data=rng.choice([b"", b"skv", bytes([rng.randrange(256)]) * rng.randrange(0, 200)]))
+            miner_pk = rng.choice(self.keys)[1]
+            ro = self.odd_reward_outputs(pid, rtxs, miner_pk, rng) if rng.random() < self.odd_reward_prob else None
+            rb, real = self.assemble(pid, rtxs, ts, miner_pk,
+                                     data=rng.choice([b"", b"skv", bytes([rng.randrange(256)]) * rng.randrange(0, 200)]),
+                                     reward_outputs=ro)
             bid = self.accept(rb, real, validate=validate, now=ts + rng.choice([-30, 0, 5, 10_000]))
             if bid is not None:
                 new.append(bid)
